@@ -9,7 +9,7 @@ import itertools
 
 from .absint import Interp
 from .termeval import ev, path_matches, CannotEval, Raised
-from .values import K, T, Obj, TupleV, ListV, DictV, show
+from .values import K, T, Obj, TupleV, ListV, DictV, SetV, show
 
 
 def extract(world, thunk, types=None, capture=None, depth=5, setup=None,
@@ -84,6 +84,14 @@ def grid_compare(rep, rule, key, label, outcomes, grids, oracle,
         rep.undecided(rule, key, '%s: interpretation inexact: %s' % (
             label, notes), where)
         return False
+    shared = memo_shared(outcomes)
+    if shared:
+        rep.check(rule, key + ':memoised', False,
+                  '%s: the result is the %s object kept by the cache of %s: '
+                  'every later call with equal arguments returns the same '
+                  'mutable object, so a caller changing one result changes '
+                  'the next' % (label, shared[1], shared[0]), where,
+                  case=label)
     syms = list(grids)
     bad = None
     more = []
@@ -129,6 +137,44 @@ def grid_compare(rep, rule, key, label, outcomes, grids, oracle,
                                  % (len(more), more[:6])),
               where, case={'label': label, 'input': bad[0]})
     return False
+
+
+MUTABLE_CALLS = ('list', 'dict', 'set', 'sorted', 'bytearray')
+MUTABLE_METHODS = ('asList', 'as_list', 'split', 'rsplit', 'splitlines',
+                   'copy', 'readlines')
+
+
+def _mutable_kind(v):
+    if isinstance(v, ListV):
+        return 'list'
+    if isinstance(v, DictV):
+        return 'dict'
+    if isinstance(v, SetV):
+        return 'set'
+    if isinstance(v, T):
+        if v.op == 'call' and v.args[0] in MUTABLE_CALLS:
+            return v.args[0]
+        if v.op in ('mcall', 'mret') and len(v.args) > 1 and \
+                v.args[1] in MUTABLE_METHODS:
+            return 'list'
+        if v.op in ('dict', 'list', 'listcomp'):
+            return v.op
+    return None
+
+
+def memo_shared(outcomes):
+    """(function, kind) when some path returns the very object a memoising
+    decorator keeps (and the object is mutable)."""
+    for o in outcomes:
+        if o.kind != 'return':
+            continue
+        for e in o.effects:
+            if e[0] == 'memo' and (e[2] is o.value or (
+                    isinstance(e[2], T) and e[2] == o.value)):
+                kind = _mutable_kind(o.value)
+                if kind:
+                    return (e[1], kind)
+    return None
 
 
 def outcome_value(o, val, hooks=None):
